@@ -12,7 +12,7 @@ from iOpt.evolvent.evolvent import Evolvent  # noqa: E402
 
 def rand_box(rng, n, kind=None):
     """Boxes with lower < upper; width at least 2^-10 of the magnitudes (see DESIGN 2.2)."""
-    kind = kind or rng.choice(["unit", "sym", "shift", "wide", "mixed", "mixed"])
+    kind = kind or rng.choice(["unit", "sym", "shift", "wide", "mixed", "mixed", "tiny0", "narrowfar"])
     lo, up = [], []
     for _ in range(n):
         if kind == "unit":
@@ -25,6 +25,16 @@ def rand_box(rng, n, kind=None):
             a, b = c - w / 2, c + w / 2
         elif kind == "wide":
             a, b = -rng.uniform(10, 1000), rng.uniform(10, 1000)
+        elif kind == "tiny0":
+            # a tiny box containing or touching the origin (sides 1e-9 .. 1e-6): absolute thresholds in the code would show here
+            w = 10.0 ** -rng.uniform(6, 9)
+            a = -w * rng.choice([0.0, 1.0, rng.random()])
+            b = a + w
+        elif kind == "narrowfar":
+            # a side that is short relative to its distance from the origin (relative width 4e-6 .. 3e-4): relative thresholds would show here
+            c = rng.choice([-1, 1]) * 10.0 ** rng.uniform(2, 5.5)
+            w = abs(c) * 10.0 ** -rng.uniform(3.5, 5.4)
+            a, b = c, c + w
         else:
             c = rng.choice([0.0, rng.uniform(-5, 5), rng.uniform(-100, 100)])
             w = rng.choice([rng.uniform(0.2, 3), rng.uniform(1e-2, 1), rng.uniform(3, 60)])
